@@ -231,6 +231,42 @@ def gen_scenario(rng: random.Random, feat: dict | None = None) -> dict:
                                "mode": rng.choice(["now", "now", "clean", "now-now"])})
         scn["ops"].sort(key=lambda o: o["tick"])
         scn["baseline"] = True
+    if feat.get("set") or feat.get("remove") or feat.get("trigger"):
+        g = instance_graph(scn)["inst"]
+        ids = sorted(g)
+        kinds = [k for k in ("set", "remove", "trigger") if feat.get(k)]
+        for _ in range(rng.randint(1, 3)):
+            if not ids:
+                break
+            kind = rng.choice(kinds)
+            tick = rng.randint(0, 10)
+            pnt, t = rng.choice(ids)
+            if kind == "set":
+                r = rng.random()
+                if r < 0.35:
+                    args = {"tasks": [f"{pnt}/{t}"], "flow": ["all"], "outputs": None, "prerequisites": None}
+                elif r < 0.7:
+                    outs = rng.sample(["succeeded", "started", "failed", "submitted"] + customs.get(t, []),
+                                      rng.randint(1, 2))
+                    if "succeeded" in outs and "failed" in outs:
+                        outs.remove("failed")
+                    args = {"tasks": [f"{pnt}/{t}"], "flow": ["all"], "outputs": outs, "prerequisites": None}
+                else:
+                    keys = [a for ex in g[(pnt, t)]["prereqs"] for a in atoms_c(ex) if not a["pre"]]
+                    if keys and rng.random() < 0.7:
+                        a = rng.choice(keys)
+                        pre = [f"{a['id'][0]}/{a['id'][1]}:{a['out']}"]
+                    else:
+                        pre = ["all"]
+                    args = {"tasks": [f"{pnt}/{t}"], "flow": ["all"], "outputs": None, "prerequisites": pre}
+                scn["ops"].append({"tick": tick, "cmd": "set", "args": args})
+            elif kind == "remove":
+                scn["ops"].append({"tick": tick, "cmd": "remove_tasks", "args": {"tasks": [f"{pnt}/{t}"], "flow": ["all"]}})
+            else:
+                sel = rng.sample(ids, rng.randint(1, min(3, len(ids))))
+                scn["ops"].append({"tick": tick, "cmd": "force_trigger_tasks",
+                                   "args": {"tasks": [f"{p_}/{t_}" for p_, t_ in sel], "flow": ["all"]}})
+        scn["ops"].sort(key=lambda o: o["tick"])
     if feat.get("crash"):
         for _ in range(rng.choice([1, 1, 2])):
             scn["ops"].append({"tick": rng.randint(0, 10), "cmd": "crash", "stmts": rng.choice([0, 0, 1, 2, 3, 5, 8, 13])})
